@@ -33,6 +33,9 @@ func Draw(t *rapid.T) *pbt.Case {
 	c.SetStr("alphabet", alpha)
 	c.Spec = gen.Default(sg).With("netopsrc").Draw(t, rapid.IntRange(1, maxB).Draw(t, "budget"))
 	c.SetInt("hops", rapid.IntRange(0, 2).Draw(t, "hops"))
+	if rapid.IntRange(0, 3).Draw(t, "legacy") == 0 {
+		c.SetInt("legacy", 1)
+	}
 	switch rapid.SampledFrom([]string{"none", "all", "some"}).Draw(t, "unknowing") {
 	case "all":
 		c.SetInt("unknowing", 1)
@@ -68,6 +71,16 @@ func Check(c *pbt.Case, r *pbt.R) {
 		}
 	}
 	scan("local", e0)
+	if c.Int("legacy") == 1 {
+		// The same error as a peer running the previous version of the
+		// library sends it: barriers under their old type name, with a
+		// plain message (all of it unsafe at the receiver).
+		l := wire.FromLegacyBarrierPeer(e0, gen.BarrierTexts(c.Spec, e0))
+		scan("received from a peer with the previous barrier format", l)
+		l2, _ := wire.Hop(errors.Wrap(l, "rewrapped"))
+		scan("received from a peer with the previous barrier format, rewrapped and forwarded", l2)
+		r.Count("features", "legacy barrier peer")
+	}
 	e := e0
 	for i := 1; i <= c.Int("hops"); i++ {
 		e, _ = wire.Hop(e)
